@@ -348,3 +348,11 @@ Definition observe (r : option lres) (op : aop) : obs :=
       | inl (Some r') => ObsRange (range_obs r')
       end
   end.
+
+(* ---------- aliasing (C10): does the value an accessor hands out share memory with the decode
+   input?  The Decoder clones the input in safe mode and decodes it with a fast-mode csproto.Decoder;
+   the string/bytes accessors clone again in safe mode (string(data), slices.Clone) and hand out the
+   recorded slices themselves in fast mode; numeric accessors always build fresh values (in fast mode
+   their slices are the result's own scratch slices, never the input). ---------- *)
+Definition acc_aliases_input (fast_mode : bool) (k : akind) : bool :=
+  fast_mode && match k with AString | ABytes => true | _ => false end.
